@@ -1025,7 +1025,7 @@ class Torrent():
             try:
                 info = utils.encode_dict(self.metainfo['info'])
                 info_enc = bencode.encode(info)
-            except ValueError as e:
+            except (ValueError, RecursionError) as e:
                 raise error.MetainfoError(e)
             else:
                 return hashlib.sha1(info_enc).hexdigest()
@@ -1478,7 +1478,8 @@ class Torrent():
         """
         try:
             return utils.encode_dict(self.metainfo)
-        except ValueError as e:
+        except (ValueError, RecursionError) as e:
+            # RecursionError: cyclic or too deeply nested lists/dictionaries
             raise error.MetainfoError(e)
 
     def dump(self, validate=True):
@@ -1493,7 +1494,7 @@ class Torrent():
             self.validate()
         try:
             return bencode.encode(self.convert())
-        except ValueError as e:
+        except (ValueError, RecursionError) as e:
             # E.g. integer that is too large to be converted to string
             raise error.MetainfoError(e)
 
